@@ -354,10 +354,12 @@ def _get_spline_mat_inv(x: torch.Tensor, bc_type: str):
     if bc_type == "natural":
         pass  # set to be natural
     elif bc_type == "clamped":
+        # k_0 = 0 and k_{n-1} = 0, written with the scale of the other rows (1 / dx)
+        # to keep the matrix well conditioned whatever the unit of x is
         spline_mat[..., 0, :] = 0.
-        spline_mat[..., 0, 0] = 1.
+        spline_mat[..., 0, 0] = dxinv0[..., 0]
         spline_mat[..., -1, :] = 0.
-        spline_mat[..., -1, -1] = 1.
+        spline_mat[..., -1, -1] = dxinv0[..., -1]
         matr[..., 0, :] = 0.
         matr[..., -1, :] = 0.
     elif bc_type == "not-a-knot" and nr == 2:
